@@ -62,6 +62,15 @@ pub fn load_bdd_bundle(
         let bdd = Bdd::read_as_string(&mut bdd_string.as_bytes()).map_err(|e| {
             format!("Error loading file `{filename}` from the archive {archive_path}: {e}")
         })?;
+        // a set computed for a graph with a different number of symbolic variables (e.g. another number of
+        // HCTL variables) cannot be used in this context - any later operation on it would panic
+        let expected_vars = symbolic_context.bdd_variable_set().num_vars();
+        if bdd.num_vars() != expected_vars {
+            return Err(format!(
+                "Error loading file `{filename}` from the archive {archive_path}: the BDD has {} symbolic variables, but the model's graph has {expected_vars} (was the archive computed with a different number of HCTL variables?).",
+                bdd.num_vars()
+            ));
+        }
         let set = GraphColoredVertices::new(bdd, symbolic_context);
         loaded_sets.insert(name.to_string(), set);
     }
